@@ -768,6 +768,18 @@ def m_bytes(I, fv, args, kw):
             raise Unsupported("startswith symbolic prefix")
         pre = I.getslice(vb, None, mkint(n))
         return ops.eq_values(I, pre, p)
+    if name == "endswith":
+        p = I.resolve(args[0])
+        if not isinstance(p, VBytes):
+            raise Unsupported("endswith argument")
+        n = p.length()
+        # x.endswith(p)  <=>  len(x) >= len(p) and x[len(x)-len(p):] == p   (p may have symbolic length, e.g. bytes([pad]) * pad)
+        ln = _iv(vb.length())
+        pn = _iv(n)
+        if I.path.branch(ln >= pn, "endswith_len"):
+            tail = I.slice_bytes(vb.with_kind("bytes"), z3.simplify(ln - pn), ln)
+            return ops.eq_values(I, tail, p.with_kind("bytes"))
+        return FALSE
     if name == "release":
         return NONE
     if name == "rstrip" and len(args) == 1:
